@@ -311,6 +311,12 @@ def tasks(tier, seed):
     boots = _boot_vectors(tier)
     for i in range(0, len(boots), 6):
         t.append(dict(part='b', algo='simple_bounds', bounds='none', start=[0.0, 0.0], boot=boots[i:i + 6]))
+    # bootstrap phase left by an exception at its k-th evaluation (an interrupted run, caught by the caller), after a
+    # first estimation cut short; the same object is then estimated again: the file must follow the best point
+    ks = [1, 2, 3] if tier == 'quick' else [1, 2, 3, 4, 5, 8]
+    for a in (['simple_bounds', 'LS-BFGS'] if tier == 'quick' else algos):
+        for k in ks:
+            t.append(dict(part='b', algo=a, bounds='none', start=[0.0, 0.0], boot=[boots[7]], interrupt=k))
     # (e) the file follows the current model name
     t.append(dict(part='e'))
     # (c) restart
@@ -405,6 +411,10 @@ BOUNDS = {
 }
 
 
+class _Interrupted(Exception):
+    pass
+
+
 def _part_b(task, rec):
     import numpy as np
 
@@ -416,6 +426,10 @@ def _part_b(task, rec):
         extra = {'max_iterations': 40}   # the trace is what matters here, not convergence
         if bv is not None:
             extra['bootstrap_samples'] = 1
+        interrupt = task.get('interrupt')
+        if interrupt:
+            extra['max_iterations'] = 1
+            extra['bootstrap_samples'] = 2
         b = make_biogeme(start=tuple(task['start']), bounds=BOUNDS[task['bounds']], algo=task['algo'], extra=extra)
         ref = RefModel()
         phase = {'boot': False}
@@ -424,6 +438,10 @@ def _part_b(task, rec):
 
         def on_eval(x, out, b=b, ref=ref):
             p = tuple(float(v) for v in x)
+            if phase['boot'] and interrupt:
+                state['boot_evals'] = state.get('boot_evals', 0) + 1
+                if state['boot_evals'] == interrupt:
+                    raise _Interrupted()
             if not phase['boot']:
                 f, fin = ref_ll(p)
                 g = np.asarray(out.gradient, dtype=float)
@@ -457,6 +475,15 @@ def _part_b(task, rec):
                     npr.randint = saved
         except Exception as e:  # an optimiser failing on this problem is not C15's business
             rec.count('estimate_raised_' + type(e).__name__)
+        if interrupt:
+            # the caller caught the interruption and goes on with the same object: a longer estimation
+            rec.count('bootstrap_interrupted' if state.get('boot_evals', 0) >= interrupt else 'bootstrap_not_reached_interrupt')
+            phase['boot'] = False
+            try:
+                b.max_iterations = 40
+                b.estimate()
+            except Exception as e:
+                rec.count('second_estimate_raised_' + type(e).__name__)
         # the history continues on the same object: points far worse than the best one, evaluated after the
         # estimation (as check_derivatives or a user would do), must not replace the file
         try:
@@ -469,11 +496,13 @@ def _part_b(task, rec):
         if state['bad']:
             n, inboot, (clause, detail) = state['bad']
             where = 'bootstrap-phase' if inboot else 'optimisation'
+            if interrupt:
+                where += '-after-interrupted-bootstrap'
             rec.violation(f'C15|{clause}|trace:{where}',
                           f'{clause} during {where} of estimate() [algo={task["algo"]} bounds={task["bounds"]} '
-                          f'boot={bv}] at evaluation #{n}: {detail}',
+                          f'boot={bv} interrupt={interrupt}] at evaluation #{n}: {detail}',
                           dict(part='b', algo=task['algo'], bounds=task['bounds'], start=task['start'],
-                               boot=[bv] if bv else None), observed=detail)
+                               boot=[bv] if bv else None, interrupt=interrupt), observed=detail)
 
 
 def _part_e(task, rec):
@@ -748,7 +777,7 @@ def replay(case):
                 i, (clause, detail) = bad
                 rec.violation(f'C15|{clause}|pattern={pattern(hist[:i + 1])}', f'{clause}: {detail}', case, observed=detail)
         elif part == 'b':
-            _part_b(dict(part='b', algo=case['algo'], bounds=case['bounds'], start=case['start'], boot=case['boot']), rec)
+            _part_b(dict(part='b', algo=case['algo'], bounds=case['bounds'], start=case['start'], boot=case['boot'], interrupt=case.get('interrupt')), rec)
         elif part == 'c':
             # replays the whole name pool entry (cheap); reports matching violations
             _part_c(dict(part='c', names=case['names']), rec)
